@@ -24,6 +24,7 @@ type c13Case struct {
 	SrvSenders int    `json:"srv_senders"`
 	DelayUs    int    `json:"delay_us"` // traffic time before the end is requested
 	Seed       int64  `json:"seed"`
+	RespOnly   bool   `json:"resp_only"` // the senders send nothing but unmatched response commands
 }
 
 type c13Res struct {
@@ -243,7 +244,11 @@ func runC13Case(c *c13Case) (res c13Res) {
 		for i := 0; atomic.LoadInt32(&stop) == 0; i++ {
 			sctx, scancel := context.WithTimeout(ctx, 2*time.Second)
 			var err error
-			switch (i + salt) % 4 {
+			kind := (i + salt) % 4
+			if c.RespOnly {
+				kind = 3
+			}
+			switch kind {
 			case 0:
 				m := &lime.Message{}
 				m.ID = fmt.Sprint(i)
@@ -495,6 +500,12 @@ func init() {
 				c := &c13Case{Transport: trs[i%3], Initiator: inits[(i/3)%8], Buf: []int{0, 1, 64}[e.Rng.Intn(3)],
 					CliSenders: e.Rng.Intn(5), SrvSenders: e.Rng.Intn(5), DelayUs: []int{0, 50, 300, 2000}[e.Rng.Intn(4)], Seed: e.Seed*100000 + int64(i)}
 				cases = append(cases, c)
+			}
+			// the terminating side has nothing but unmatched response commands coming in, and no room
+			for _, tr := range trs {
+				for _, ini := range []string{"server-close", "server-finish", "server-fail"} {
+					cases = append(cases, &c13Case{Transport: tr, Initiator: ini, Buf: 0, CliSenders: 3, SrvSenders: 0, DelayUs: 2000, RespOnly: true, Seed: e.Seed})
+				}
 			}
 		}
 		workers := 12
